@@ -665,6 +665,7 @@ def run(ctx):
         "for a source field any source cell whose closed box contains the target centre is admissible (the property says 'a source cell')",
         "a mesh whose subregions the library rejects on a non-dyadic embedding is skipped (C14's concern)",
     ]
+    core.df_stage(ctx, df)   # mixed histories (spec/DF.tla): the clauses that come from this property's text
     return core.finish(ctx, rule=RULE, extra={"embeddings": [e.name for e in embs], "dtype_kinds": list(L.KINDS)})
 
 
